@@ -225,10 +225,11 @@ fn make_world(spec: &str) -> Option<Box<dyn World>> {
     let (acts, uses_time) = match spec {
         "c08-matrix" => (plan().acts, true),
         "c08-hist" => (hist_acts(), false),
-        "c08-two-watchers" => (two_watcher_acts(), false),
+        "c08-two-watchers" | "c08-two-watchers-sameshard" => (two_watcher_acts(), false),
         _ => return None,
     };
-    Some(Box::new(MultiWorld::new(MultiSpec { prop: "C08".into(), nconns: 2, acts, probes: vec![s(&["GET", "probe"]), s(&["EXISTS", "probe"])], uses_time, dump: true, srv_opts: SrvOpts::default() })))
+    let stride = if spec.ends_with("-sameshard") { 16 } else { 1 };
+    Some(Box::new(MultiWorld::new(MultiSpec { prop: "C08".into(), nconns: 2, acts, probes: vec![s(&["GET", "probe"]), s(&["EXISTS", "probe"])], uses_time, dump: true, srv_opts: SrvOpts { conn_stride: stride, ..SrvOpts::default() } })))
 }
 
 /// (c) a blocked BLPOP served by a push between WATCH and EXEC: the key is created and emptied again
@@ -338,7 +339,8 @@ fn prop() -> DataProp {
     DataProp {
         id: "C08",
         specs: vec![SpecRun { spec: "c08-hist", depth_quick: 5, depth_thorough: 7, budget_quick_s: 25.0, budget_thorough_s: 1500.0 },
-            SpecRun { spec: "c08-two-watchers", depth_quick: 5, depth_thorough: 7, budget_quick_s: 25.0, budget_thorough_s: 1500.0 }],
+            SpecRun { spec: "c08-two-watchers", depth_quick: 5, depth_thorough: 7, budget_quick_s: 25.0, budget_thorough_s: 1500.0 },
+            SpecRun { spec: "c08-two-watchers-sameshard", depth_quick: 4, depth_thorough: 6, budget_quick_s: 15.0, budget_thorough_s: 900.0 }],
         make_world,
         assumptions: {
             let mut a = e1common::std_assumptions();
